@@ -195,6 +195,89 @@ async def stop_interrupted(n_starts_after):
     return None
 
 
+async def helper_probes():
+    """The small helpers the life cycle rests on (frequenz.sdk._internal._asyncio, BackgroundService.stop):
+    run_forever waits its interval - fractions of a second included - after a failure and not after a normal return;
+    cancel_and_await swallows the cancellation it caused and nothing else; stop() surfaces the errors of the tasks
+    that failed, without the CancelledErrors of the tasks it cancelled itself."""
+    from unittest import mock
+    from frequenz.sdk._internal import _asyncio as helpers
+    from frequenz.sdk.actor import BackgroundService
+    real_sleep = asyncio.sleep
+    for interval in (timedelta(seconds=0.25), timedelta(seconds=1.5), timedelta(seconds=1), timedelta(days=1, seconds=2)):
+        delays, calls = [], [0]
+
+        async def fake_sleep(d, *a, **k):
+            delays.append(d)
+            await real_sleep(0)
+
+        async def flaky():
+            calls[0] += 1
+            await real_sleep(0)
+            if calls[0] in (1, 2, 4):
+                raise RuntimeError("scripted failure")
+            if calls[0] >= 6:
+                await asyncio.Event().wait()
+
+        with mock.patch.object(helpers.asyncio, "sleep", fake_sleep):
+            t = asyncio.create_task(helpers.run_forever(flaky, interval))
+            for _ in range(60):
+                await real_sleep(0)
+            t.cancel()
+            try:
+                await t
+            except asyncio.CancelledError:
+                pass
+        if delays != [interval.total_seconds()] * 3 or calls[0] < 6:
+            return (f"run_forever(interval={interval}): the callable failed on calls 1, 2 and 4 of {calls[0]}; delays slept: {delays}, "
+                    f"demanded three times {interval.total_seconds()} s")
+    # cancel_and_await
+    async def dies_on_cancel():
+        try:
+            await asyncio.Event().wait()
+        except asyncio.CancelledError:
+            raise ValueError("clean-up failed") from None
+
+    t = asyncio.create_task(dies_on_cancel())
+    await real_sleep(0)
+    try:
+        await helpers.cancel_and_await(t)
+        return "cancel_and_await swallowed the ValueError a task raised while it was being cancelled"
+    except ValueError:
+        pass
+    t = asyncio.create_task(asyncio.Event().wait())
+    await real_sleep(0)
+    try:
+        await helpers.cancel_and_await(t)
+    except BaseException as e:  # pylint: disable=broad-except
+        return f"cancel_and_await let {type(e).__name__} escape for a task that was simply cancelled"
+    # stop(): one task fails, two are simply cancelled
+
+    class Svc(BackgroundService):
+        def start(self):
+            async def fails():
+                try:
+                    await asyncio.Event().wait()
+                except asyncio.CancelledError:
+                    raise RuntimeError("failed while stopping") from None
+            self._tasks.add(asyncio.create_task(fails()))
+            self._tasks.add(asyncio.create_task(asyncio.Event().wait()))
+            self._tasks.add(asyncio.create_task(asyncio.Event().wait()))
+
+    svc = Svc(name="svc")
+    svc.start()
+    await real_sleep(0)
+    try:
+        await svc.stop()
+        return "stop() returned normally although one of its tasks raised RuntimeError while being stopped"
+    except BaseExceptionGroup as g:      # noqa: F821  (python >= 3.11)
+        kinds = sorted(type(e).__name__ for e in g.exceptions)
+        if kinds != ["RuntimeError"]:
+            return (f"stop() raised a group with {kinds}: the CancelledErrors of the tasks it cancelled itself must not be "
+                    f"reported, only the RuntimeError of the task that failed")
+    return None
+
+
 def run(req):
     logging.disable(logging.CRITICAL)
     t0 = time.time()
@@ -236,13 +319,22 @@ def run(req):
             f = f"scenario raised {type(e).__name__}: {e}"
         if f:
             failure = (f, {"schedule": "start, stop() cancelled while waiting, start x n, stop", "starts_after_interrupted_stop": ns})
+    if not failure:
+        evaluations += 1
+        try:
+            f = asyncio.run(helper_probes())
+        except Exception as e:  # pylint: disable=broad-except
+            f = f"scenario raised {type(e).__name__}: {e}"
+        if f:
+            failure = (f, {"scenario": "run_forever / cancel_and_await / stop() with a failing task"})
     logging.disable(logging.NOTSET)
     out = {"status": "failed" if failure else "ok", "evaluations": evaluations, "distinct": evaluations, "known": {},
            "samples": samples, "wall_s": round(time.time() - t0, 1), "exhaustive": failure is None,
            "rule": "restart limit in {None, 0, 1, 2} x outcome plans of the run logic (up to 3 failures, then return) x an "
                    "optional second start() with its own plan x restart delay 0 / 50 ms (a subclass attribute); plus start / "
                    "cancel / start again (1-2x) while the cancelled run logic cleans up for 1/3/8 loop iterations; a stop() cancelled by its caller "
-                   "while it waits, followed by 0-2 start() calls and a second stop(); all distinct"}
+                   "while it waits, followed by 0-2 start() calls and a second stop(); the helpers run_forever (4 intervals), "
+                   "cancel_and_await and stop() with one failing and two cancelled tasks; all distinct"}
     if failure:
         out["failure"] = {"clause": "restart policy on the real Actor", "detail": failure[0]}
         out["inputs"] = failure[1]
